@@ -86,7 +86,8 @@ pub fn c01(sh: &Shape) {
                     }
                 }
                 // has_sig bookkeeping of satisfier templates (plans carry no flag)
-                if w.roles & 0b000011 != 0 && w.roles & 0b001100 == 0 {
+                // (in malleable mode the flag means "every alternative was signed", so only bit 0)
+                if w.roles & 0b000001 != 0 && w.roles & 0b001110 == 0 {
                     chk!(w.has_sig == has_valid_sig(w), "has_sig flag differs from the template's content");
                 }
             }
@@ -488,25 +489,19 @@ pub fn c17(sh: &Shape) {
     if sh.ty.base != spec::B || !sh.has_desc {
         return;
     }
-    // (1) plan row == satisfier row, every row of the table (constants; decided by the
-    // symbolic executor's constant propagation)
-    let mut r = 0;
-    while r < sh.rows.len() {
-        let rw = &sh.rows[r];
-        let (s, p) = (&sh.wits[rw.sat as usize], &sh.wits[rw.plan as usize]);
-        let (sm, pm) = (&sh.wits[rw.sat_m as usize], &sh.wits[rw.plan_m as usize]);
-        chk!((s.kind == W_STACK) == (p.kind == W_STACK), "a plan exists exactly when the non-malleable satisfier succeeds");
-        chk!((sm.kind == W_STACK) == (pm.kind == W_STACK), "a malleable plan exists exactly when the malleable satisfier succeeds");
-        if s.kind == W_STACK && p.kind == W_STACK {
-            chk!(s.n == p.n && s.els == p.els, "plan template differs from the satisfier's witness");
-            chk!(s.abs == p.abs && s.rel == p.rel, "plan reports different time locks than the satisfier");
-            cover!(true, "plan compared");
-        }
-        if sm.kind == W_STACK && pm.kind == W_STACK {
-            chk!(sm.n == pm.n && sm.els == pm.els, "malleable plan template differs from the satisfier's witness");
-            chk!(sm.abs == pm.abs && sm.rel == pm.rel, "malleable plan reports different time locks than the satisfier");
-        }
-        r += 1;
+    // (1) plan row == satisfier row, for a symbolic row of the table (templates are interned
+    // by content, so equal templates have equal indices)
+    let r = sym::usize_();
+    sym::assume(r < sh.rows.len());
+    let rw = &sh.rows[r];
+    chk!((rw.sat_k == W_STACK) == (rw.plan_k == W_STACK), "a plan exists exactly when the non-malleable satisfier succeeds");
+    chk!((rw.sat_m_k == W_STACK) == (rw.plan_m_k == W_STACK), "a malleable plan exists exactly when the malleable satisfier succeeds");
+    if rw.sat_k == W_STACK && rw.plan_k == W_STACK {
+        chk!(rw.sat == rw.plan, "plan template or reported time locks differ from the satisfier's");
+        cover!(true, "plan compared");
+    }
+    if rw.sat_m_k == W_STACK && rw.plan_m_k == W_STACK {
+        chk!(rw.sat_m == rw.plan_m, "malleable plan template or reported time locks differ from the satisfier's");
     }
     // (2) necessity of the reported locks: with any lock value NOT meeting them the witness fails
     let mut i = 0;
